@@ -5,6 +5,48 @@ HOOK_COMMITS = ["42d3529"]
 NOT_APPLICABLE = {}
 
 PROPS = {
+    "C01": {
+        "lean": ["OxiModel.Props.C01"],
+        "streams": [{"name": "corr-reduce", "quick": 6000, "thorough": 120000},
+                    {"name": "corr-geom", "quick": 30, "thorough": 300}],
+        "oracles": [{"name": "e2e", "args": ["C01"], "quick": 4000, "thorough": 60000}],
+        "claim": "Lean 4 per-pixel exactness theorems for the reductions, over all sample values: 16->8 (equal bytes) incl. the colour-key conversion (a key with unequal bytes "
+                 "matches no reducible pixel), RGB(A)->gray(+alpha) incl. key, dropping an opaque alpha channel, palette entries built from pixels, bit replication 1/2/4<->8; every "
+                 "reduction is modelled literally and compared with the code output-for-output (exact streams), interlacing likewise; the end-to-end oracle decodes input and output with "
+                 "an independent reference decoder and compares all pixels at 16-bit precision for generated files x generated option sets (alpha and scale16 off) incl. 2-step chains.",
+        "note": "Partial: the per-pixel theorems are proved; their lift to whole images through `sem` (storage order x geometry) and the lineage theorem over perform_reductions are growth items, "
+                "so image-level losslessness currently rests on the exact correspondence streams plus the e2e oracle. Trusted: D1 (inflate∘deflate), harness reference decoder (cross-checked against the png crate in C02).",
+        "technique": "Lean 4 proof (per-pixel exactness lemmas) + exact model/implementation correspondence + e2e oracle",
+        "partial_note": "image-level lift (sem) and pipeline lineage theorem pending; covered by correspondence + oracle meanwhile",
+        "rule": "corr-reduce: each of the 10 modelled reductions on images biased to its domain (hi==lo 16-bit, gray-valued RGB, replicated bit patterns, opaque/binary alpha, keys used/unused/near-miss, "
+                "palettes with duplicates/unused/transparent entries), flags random; e2e: generated PNGs (15 type/depth pairs, interlaced or not, random row filters, split IDAT) x generated options; "
+                "distinct = distinct request lines / (input, options) pairs",
+    },
+    "C03": {
+        "lean": ["OxiModel.Props.C03"],
+        "streams": [{"name": "corr-filters", "quick": 4000, "thorough": 80000},
+                    {"name": "corr-reduce", "quick": 4000, "thorough": 80000}],
+        "oracles": [{"name": "e2e", "args": ["C03"], "quick": 4000, "thorough": 60000}],
+        "claim": "Lean 4 theorem by induction over the pixel loop of the per-filter alpha rewrite (all five filter types, all pixel sizes, all lines): the rewrite returns the same number of pixels, "
+                 "leaves every pixel that is not fully transparent unchanged and keeps the alpha bytes of transparent ones; alphaEq is an equivalence; transparent pixels are alphaEq whatever their colour. "
+                 "optimize_alpha is modelled literally and compared with the code (incl. first-pixel-transparent and all-transparent rows); the alpha-flagged reductions are compared in corr-reduce; "
+                 "the e2e oracle checks alpha everywhere and colour wherever alpha != 0 at 16-bit precision with alpha optimisation on.",
+        "note": "Partial: frame theorem for the line rewrite proved; the image-level composition (heuristic strategies mutating the line across trial filters, alpha-flagged reductions) is covered by correspondence + oracle.",
+        "technique": "Lean 4 proof (induction over the pixel loop) + correspondence + e2e oracle",
+        "partial_note": "image-level composition pending",
+        "rule": "filter_line with alpha_bytes in {1,2} on rows with random transparent runs (all / none / mixed) for the five filters; e2e with optimize_alpha=true; distinct as C01",
+    },
+    "C15": {
+        "lean": ["OxiModel.Props.C15"],
+        "streams": [{"name": "corr-reduce", "quick": 4000, "thorough": 80000}],
+        "oracles": [{"name": "e2e", "args": ["C15"], "quick": 4000, "thorough": 60000}],
+        "claim": "Lean 4 theorems: the integer model of the scaling is round(v/257) for every 16-bit value (|257 s - v| <= 128, equal bytes keep the byte, 0x00FF -> 1, monotone), the scaled image is 8-bit with "
+                 "unchanged dimensions/colour-type code/interlacing and sample-wise scaled data, gray and RGB keys are rounded like samples, non-16-bit images are treated as without the switch. "
+                 "The f32 code is tied to the integer model on all 65 536 values (digest) and on whole images (exact stream); the e2e oracle checks the relation on decoded outputs.",
+        "note": "f32 semantics are outside the kernel: tie is by exhaustive comparison. With bit-depth changes disabled C08 is binding and the switch must have no effect (checked). One known finding (unforced fallback re-serialises the unscaled image).",
+        "technique": "Lean 4 proof (omega over all sample values) + exhaustive correspondence on the 65 536 inputs + e2e oracle",
+        "rule": "all 65 536 sample values (digest), reductions stream, e2e with scale_16=true biased to 16-bit inputs of all four 16-bit colour types with and without keys; distinct as C01",
+    },
     "C04": {
         "lean": ["OxiModel.Props.C04"],
         "streams": [{"name": "corr-decision", "quick": 3000, "thorough": 50000}],
